@@ -203,3 +203,5 @@ def run(ctx, rep):
     rule_allsources(ctx, rep, rid="R-C06-allsources")
     from rules.c02 import rule_stackend
     rule_stackend(ctx, rep, rid="R-C06-stackend")
+    from rules.c02 import rule_bracket
+    rule_bracket(ctx, rep, rid="R-C06-bracket")
